@@ -39,6 +39,8 @@ type ev struct {
 	Op     string          `json:"op"`
 	Name   string          `json:"name"`
 	Hint   string          `json:"hint"`
+	Gs1    int             `json:"gs1"`  // qr: also pass GS1_FORMAT = false (1) / "false" (2) to the writer
+	HMut   int             `json:"hmut"` // the call wrote into the caller's hints map
 	Cs     string          `json:"cs"`
 	Text   []int           `json:"text"`
 	Bytes  []int           `json:"bytes"`
@@ -122,6 +124,9 @@ func ints(b []byte) []int {
 	return out
 }
 
+var sharedRead = map[gozxing.DecodeHintType]interface{}{gozxing.DecodeHintType_PURE_BARCODE: true}
+var sharedParse = map[gozxing.DecodeHintType]interface{}{gozxing.DecodeHintType_TRY_HARDER: true}
+
 func main() {
 	hlib.Main(func(raw []byte) (interface{}, error) {
 		var e ev
@@ -181,6 +186,12 @@ func main() {
 				var hints map[gozxing.EncodeHintType]interface{}
 				if e.Hint != "" {
 					hints = map[gozxing.EncodeHintType]interface{}{gozxing.EncodeHintType_CHARACTER_SET: e.Hint}
+					switch e.Gs1 { // a GS1_FORMAT hint that says "no" must change nothing
+					case 1:
+						hints[gozxing.EncodeHintType_GS1_FORMAT] = false
+					case 2:
+						hints[gozxing.EncodeHintType_GS1_FORMAT] = "false"
+					}
 				}
 				m, err := qrcode.NewQRCodeWriter().Encode(text, gozxing.BarcodeFormat_QR_CODE, 0, 0, hints)
 				if err != nil {
@@ -194,7 +205,12 @@ func main() {
 					msg(err)
 					return
 				}
-				res, err := qrcode.NewQRCodeReader().Decode(bmp, map[gozxing.DecodeHintType]interface{}{gozxing.DecodeHintType_PURE_BARCODE: true})
+				// ONE hints map for all reads of the run, as a caller keeps it: nothing may be written into it
+				res, err := qrcode.NewQRCodeReader().Decode(bmp, sharedRead)
+				if len(sharedRead) != 1 || sharedRead[gozxing.DecodeHintType_PURE_BARCODE] != true {
+					e.HMut = 1
+					sharedRead = map[gozxing.DecodeHintType]interface{}{gozxing.DecodeHintType_PURE_BARCODE: true}
+				}
 				if err != nil {
 					e.RErr = 1
 					msg(err)
@@ -220,12 +236,16 @@ func main() {
 						e.Dec, e.DecOK = cps(string(b)), 1
 					}
 				}
-				var hints map[gozxing.DecodeHintType]interface{}
+				hints := sharedParse // un-hinted parses share one (non-nil) map
 				if e.Hint != "" {
 					hints = map[gozxing.DecodeHintType]interface{}{gozxing.DecodeHintType_CHARACTER_SET: e.Hint}
 				}
 				v, _ := qrdec.Version_GetVersionForNumber(1)
 				res, err := qrdec.DecodedBitStreamParser_Decode(hlib.IntsToBytes(e.Stream), v, qrdec.ErrorCorrectionLevel_L, hints)
+				if len(sharedParse) != 1 || sharedParse[gozxing.DecodeHintType_TRY_HARDER] != true {
+					e.HMut = 1
+					sharedParse = map[gozxing.DecodeHintType]interface{}{gozxing.DecodeHintType_TRY_HARDER: true}
+				}
 				if err != nil {
 					e.Err = 1
 					if _, ok := err.(gozxing.FormatException); !ok {
